@@ -362,14 +362,23 @@ type solverSpec struct {
 	argv func(file string, timeoutS int) []string
 	// prelude lines placed before the query
 	prelude string
+	// delay: started only if the obligation is still undecided after this long (extra
+	// random seeds of a solver: cheap insurance against one unlucky heuristic run)
+	delay time.Duration
 }
 
 var solvers = []solverSpec{
-	{"z3-5.1.0", func(f string, t int) []string { return []string{"z3-new", fmt.Sprintf("-T:%d", t), f} }, ""},
-	{"z3-4.8.12", func(f string, t int) []string { return []string{"z3", fmt.Sprintf("-T:%d", t), f} }, ""},
+	{"z3-5.1.0", func(f string, t int) []string { return []string{"z3-new", fmt.Sprintf("-T:%d", t), f} }, "", 0},
+	{"z3-4.8.12", func(f string, t int) []string { return []string{"z3", fmt.Sprintf("-T:%d", t), f} }, "", 0},
 	{"cvc5-1.0.3", func(f string, t int) []string {
 		return []string{"cvc5", fmt.Sprintf("--tlimit=%d", t*1000), "--produce-models", f}
-	}, "(set-logic ALL)\n"},
+	}, "(set-logic ALL)\n", 0},
+	{"z3-5.1.0~seed1", func(f string, t int) []string {
+		return []string{"z3-new", fmt.Sprintf("-T:%d", t), "smt.random_seed=1", "sat.random_seed=1", f}
+	}, "", 2 * time.Second},
+	{"z3-5.1.0~seed2", func(f string, t int) []string {
+		return []string{"z3-new", fmt.Sprintf("-T:%d", t), "smt.random_seed=2", "sat.random_seed=2", f}
+	}, "", 5 * time.Second},
 }
 
 type solveResult struct {
@@ -442,6 +451,18 @@ func solveOn(dir, name string, variants []queryVariant, timeoutS int, only []str
 			wg.Add(1)
 			go func() {
 				defer wg.Done()
+				if s.delay > 0 {
+					if v.tag != "" {
+						ch <- one{tag, "cancelled", "", 0, false} // extra seeds only for the full query
+						return
+					}
+					select {
+					case <-time.After(s.delay):
+					case <-ctx.Done():
+						ch <- one{tag, "cancelled", "", 0, false}
+						return
+					}
+				}
 				select {
 				case solverSem <- struct{}{}:
 				case <-ctx.Done():
